@@ -1,3 +1,109 @@
-import Mqtt5V.Basic
+import Mqtt5V.Proofs.Sender
+import Mqtt5V.Proofs.Replies
+/-! # C02 — no silent loss (conservation core)
+
+* sender: a write batch and what stays queued are together a permutation of the queue (nothing dropped, nothing
+  duplicated); when a write fails with `try_again` every unanswered request, the failed batch and the whole queue
+  are re-queued for the new connection; no request is ever finished with `try_again`;
+* replies: `resend_unanswered` hands `try_again` to every waiter exactly once, so each operation re-sends. -/
 namespace Mqtt5V.Props.C02
+open Mqtt5V.Model.Sender Mqtt5V.Proofs.Sender
+
+/-- `do_write` neither drops nor duplicates: (new in-flight batch ++ new queue) is a permutation of (old in-flight ++ old queue) -/
+theorem doWrite_conserves (s : S) :
+    (((doWrite s).1.inflight.getD []) ++ (doWrite s).1.queue).Perm ((s.inflight.getD []) ++ s.queue) := by
+  by_cases hc : (s.inflight.isSome || s.queue.isEmpty) = true
+  · have hd : doWrite s = (s, []) := by unfold doWrite; simp [hc]
+    rw [hd]
+  · have hnone : s.inflight = none := by
+      cases hi : s.inflight with
+      | none => rfl
+      | some _ => simp [hi] at hc
+    cases hf : s.queue.find? (·.terminal) with
+    | some t =>
+      have hd : (doWrite s).1.inflight = some [t] ∧ (doWrite s).1.queue = s.queue.erase t := by
+        unfold doWrite; simp [hc, hf]
+      rw [hd.1, hd.2, hnone]
+      simp only [Option.getD_some, Option.getD_none, List.nil_append, List.singleton_append]
+      exact (List.perm_cons_erase (List.mem_of_find?_eq_some hf)).symm
+    | none =>
+      by_cases hlim : s.limit = MAX_LIMIT
+      · have hd : (doWrite s).1.inflight = some s.queue ∧ (doWrite s).1.queue = [] := by
+          unfold doWrite; simp [hc, hf, hlim]
+        rw [hd.1, hd.2, hnone]; simp
+      · by_cases hbe : (split s.queue s.quota).1.isEmpty = true
+        · have hd : doWrite s = (s, []) := by unfold doWrite; simp only [hc, hf, hlim, hbe]; rfl
+          rw [hd]
+        · have hd : (doWrite s).1.inflight = some (split s.queue s.quota).1 ∧ (doWrite s).1.queue = (split s.queue s.quota).2.1 := by
+            unfold doWrite; simp only [hc, hf, hlim, hbe]; exact ⟨rfl, rfl⟩
+          rw [hd.1, hd.2, hnone]
+          simpa using split_perm s.queue s.quota
+
+/-- **after a failed write everything is re-queued**: unanswered requests, the failed batch and the queue all re-enter
+(sorted) for the new connection; nothing is forgotten and nothing is awaited on the dead connection any more -/
+theorem failed_write_requeues_everything (s : S) (b : List SReq) (h : s.inflight = some b) :
+    let s' := (step s (.wdone .tryAgain)).1
+    ((s'.inflight.getD []) ++ s'.queue).Perm (s.unanswered ++ (b ++ s.queue)) ∧ s'.unanswered = [] := by
+  simp only [step, h, resend]
+  simp only [Option.isSome_none, Bool.false_eq_true, if_false]
+  constructor
+  · refine (doWrite_conserves _).trans ?_
+    simp only [Option.getD_none, List.nil_append]
+    exact List.mergeSort_perm _ _
+  · exact (doWrite_other _).1
+
+/-- **no request is finished with a transport "try again"**: such a result only ever leads to a re-send -/
+theorem try_again_never_surfaces (s : S) (i : In) : ∀ id, Ev.done id .tryAgain ∉ (step s i).2 := by
+  intro id
+  have hdw : ∀ t : S, Ev.done id .tryAgain ∉ (doWrite t).2 := by
+    intro t; unfold doWrite
+    split
+    · simp
+    · split
+      · simp
+      · split
+        · simp
+        · simp only []
+          split <;> simp
+  have hrs : ∀ t : S, Ev.done id .tryAgain ∉ (resend t).2 := by
+    intro t; unfold resend; split
+    · simp
+    · exact hdw _
+  cases i with
+  | send r => exact hdw _
+  | wdone ec =>
+    simp only [step]
+    split
+    · simp
+    · cases ec with
+      | ok =>
+        simp only []
+        intro hm
+        rcases List.mem_append.mp hm with h | h
+        · simp at h
+        · exact hdw _ h
+      | tryAgain => exact hrs _
+      | aborted => simp
+      | noRecovery => simp
+  | ack id' =>
+    simp only [step]
+    cases hf : s.unanswered.find? (·.id == id') with
+    | none => simp
+    | some r =>
+      simp only []
+      split
+      · intro hm
+        rcases List.mem_append.mp hm with h | h
+        · exact hdw _ h
+        · simp at h
+      · simp
+  | setRm rm => simp [step]
+  | resendRead => exact hrs _
+  | cancel => simp [step]
+
+/-- `resend_unanswered()`: every waiter receives `try_again` exactly once (in registration order) and none is kept -/
+theorem replies_resend_reaches_every_waiter (r : Model.Replies.R) :
+    (Model.Replies.step r .resendUnanswered).2 = r.handlers.map (fun h => ⟨h.w, .tryAgain, 0⟩) ∧
+    (Model.Replies.step r .resendUnanswered).1.handlers = [] := ⟨rfl, rfl⟩
+
 end Mqtt5V.Props.C02
